@@ -671,7 +671,7 @@ func TestCheck(t *testing.T) {
 	ev = drv.NewEvidence("C15", "exploration", rule)
 	nProg, nTypes, nHist := 12, 8, 150
 	if drv.Thorough() {
-		nProg, nTypes, nHist = 300, 10, 300
+		nProg, nTypes, nHist = 150, 10, 300
 	}
 	_ = os.Getenv
 	progs := make([]program, nProg)
